@@ -481,12 +481,15 @@ func (e *Evaluator) evalUnaryExpr(expr *ExprUnary) (*Cell, error) {
 			newValue = NewValue(v - 1)
 		}
 
-		e.evalAssignment(expr, val, NewCell(newValue))
+		stored, err := e.evalAssignment(expr, val, NewCell(newValue))
+		if err != nil {
+			return nil, err
+		}
 
 		if expr.Postfix {
 			return NewCell(NewValue(v)), nil
 		}
-		return NewCell(val.Value), nil
+		return NewCell(stored.Value), nil
 	default:
 		return nil, e.error(expr.OpToken, fmt.Sprintf("unknown operator %s", expr.OpToken.Tag))
 	}
